@@ -5,17 +5,20 @@ package c12
 import (
 	"encoding/json"
 	"fmt"
+	"runtime"
 	"sort"
 	"strings"
 
 	coraza "github.com/corazawaf/coraza/v3"
 	"github.com/corazawaf/coraza/v3/experimental/plugins"
+	"github.com/corazawaf/coraza/v3/experimental/plugins/plugintypes"
 	"github.com/corazawaf/coraza/v3/internal/verif/mc"
 	"github.com/corazawaf/coraza/v3/internal/verif/runner"
 	"github.com/corazawaf/coraza/v3/internal/verif/scen"
 )
 
 func init() {
+	plugins.RegisterOperator("verifgc", func(plugintypes.OperatorOptions) (plugintypes.Operator, error) { return gcOp{}, nil })
 	for i := 1; i <= 4; i++ {
 		plugins.RegisterTransformation(fmt.Sprintf("verifid%d", i), func(s string) (string, bool, error) { return s, false, nil })
 	}
@@ -27,7 +30,7 @@ func init() {
 			"request = repeated / case-variant names with values that the transformations change differently; every map order within the bound; each transaction is run twice on the same (pool-recycled) object. " +
 			"Oracle: the same program with rule i's list prefixed by a distinct identity transformation registered through the plugin API (no two rules can then share a cache entry) must give the same fired rules and match data. " +
 			"distinct_nontrivial = distinct (program, request) in which two rules with a common non-empty transformation prefix both selected at least one value",
-		Assumptions: []string{"the identity transformations verifid1..4 make the transformation-chain ids of all rules pairwise different, so the reference run has no cross-rule reuse"},
+		Assumptions: []string{"the gc scenario places forced garbage collections at rule boundaries; whether a collected value's address is reused is up to the allocator (40 repetitions; detection of a non-retaining cache key is therefore likely, not certain; no effect on code whose cache keeps its values alive)", "the identity transformations verifid1..4 make the transformation-chain ids of all rules pairwise different, so the reference run has no cross-rule reuse"},
 		Run:         run,
 		Replay:      replay,
 	})
@@ -129,7 +132,59 @@ func fix(s string) string {
 
 func sharePrefix(a, b []string) bool { return len(a) > 0 && len(b) > 0 && a[0] == b[0] }
 
+// gcOp is an operator that forces two garbage collections and never matches:
+// placed between rules it makes "a garbage collection happens here" a point of
+// the rule program.
+type gcOp struct{}
+
+func (gcOp) Evaluate(plugintypes.TransactionState, string) bool {
+	runtime.GC()
+	runtime.GC()
+	return false
+}
+
+// gcScenario: a target whose content is replaced during the phase by freshly
+// allocated strings of equal length (ENV via setenv with a two-token macro),
+// a transformed read of it after every replacement, and a garbage collection
+// after every read. A cache entry that outlives the value it was computed from
+// (and does not keep it alive) is hit by the next value allocated at the same
+// address. Expectation: absolute (the lowercase of the current value).
+func gcScenario(c *runner.Ctx) {
+	var sb strings.Builder
+	sb.WriteString("SecRuleEngine On\nSecAction \"id:1,phase:1,pass,nolog,setvar:tx.n=0\"\n")
+	for i := 1; i <= 9; i++ {
+		fmt.Fprintf(&sb, "SecAction \"id:%d,phase:1,pass,nolog,setvar:tx.n=+1,setenv:VERIFGC=Pad-%%{tx.n}-ABCDEFGHIJKLMNOPQRSTUVWXYZ\"\n", 100+i)
+		fmt.Fprintf(&sb, "SecRule ENV:VERIFGC \"@verifgc\" \"id:%d,phase:1,pass,nolog,t:lowercase\"\n", 200+i)
+		fmt.Fprintf(&sb, "SecRule ENV:VERIFGC \"!@streq pad-%d-abcdefghijklmnopqrstuvwxyz\" \"id:%d,phase:1,pass,log,t:lowercase\"\n", i, 300+i)
+	}
+	conf := sb.String()
+	w, err := scen.Build(conf)
+	if err != nil {
+		c.Violation("build-gc:"+err.Error(), "gc scenario rejected: "+err.Error()+"\n"+conf, kase{})
+		return
+	}
+	defer scen.Close(w)
+	for rep := 0; rep < 40; rep++ {
+		o := scen.Run(w, scen.Req{URI: "/p"}, scen.Options{})
+		c.Count("evaluations", 1)
+		stale := false
+		for _, m := range o.Matched {
+			if m.ID >= 300 {
+				stale = true
+			}
+		}
+		if stale || o.Panic != "" {
+			c.Violation("stale-result-after-target-was-replaced-and-collected", fmt.Sprintf("configuration:\n%srepetition %d: a rule saw the lowercase of an earlier content of ENV:VERIFGC (cache entry outlived its value)\n%s", conf, rep, o.Core()), kase{})
+			return
+		}
+	}
+	c.Note("gc scenario: 40 transactions x 9 replacements with a forced collection after every transformed read")
+}
+
 func run(c *runner.Ctx) {
+	if c.Worker == 0 {
+		gcScenario(c)
+	}
 	n := 2
 	if c.Thorough() {
 		n = 3
